@@ -98,6 +98,7 @@ def run(ctx):
     ctx.guard('K-NULL', 'nullable', check_null, ctx, w, ctor)
     ctx.floor('K-NULL', 2)
     ctx.guard('K-KEY', 'keys', check_keys, ctx, w, ctor)
+    ctx.guard('K-KEY', 'raw reads', check_raw_index, ctx, w, ctor)
     ctx.floor('K-KEY', 1)
     ctx.guard('K-SEEK', 'seeks', check_seek, ctx, w, ctor)
     ctx.floor('K-SEEK', 3)
@@ -332,6 +333,32 @@ def check_keys(ctx, w, graph):
                 ctx.ob('K-KEY', f.construct, '%s guarded by a membership test' % U(n)[:50], ok and bool(reach), line=n.lineno,
                        msg='a lookup keyed by a value parsed from the file raises KeyError/IndexError from the constructor',
                        sample='%s: %s under `%s in %s`' % (f.construct, U(n)[:40], U(n.slice), U(n.value)))
+
+
+def check_raw_index(ctx, w, graph):
+    """bytes returned by stream.read(n) may be shorter than n (truncated file): on the constructor graph an element subscript of such a value
+    (data[4]; not a slice, which cannot fail) raises IndexError unless a length test on that value holds on every path to it."""
+    n_sites = 0
+    for key, f in sorted(graph.items()):
+        raw = set()
+        for st in walk_no_nested(f.node):
+            if isinstance(st, ast.Assign) and len(st.targets) == 1 and isinstance(st.targets[0], ast.Name) and isinstance(st.value, ast.Call) and \
+                    isinstance(st.value.func, ast.Attribute) and st.value.func.attr == 'read':
+                raw.add(st.targets[0].id)
+        for n in walk_no_nested(f.node):
+            if isinstance(n, ast.Subscript) and isinstance(n.ctx, ast.Load) and not isinstance(n.slice, ast.Slice) and \
+                    ((isinstance(n.value, ast.Name) and n.value.id in raw) or
+                     (isinstance(n.value, ast.Call) and isinstance(n.value.func, ast.Attribute) and n.value.func.attr == 'read')):
+                n_sites += 1
+                name = n.value.id if isinstance(n.value, ast.Name) else None
+                ok = name is not None
+                reach = paths.paths_reaching(f.node, n)
+                for p in reach:
+                    if not any(('len(%s)' % name) in U(t) for t, pol in p.conds()):
+                        ok = False
+                ctx.ob('K-KEY', f.construct, '%s: element of bytes read from the file, under a length test' % U(n)[:40], ok and bool(reach), line=n.lineno,
+                       msg='the file may end inside this read: indexing the short result raises IndexError from the constructor instead of ELFError')
+    ctx.analysed['raw_read_index_sites_on_ctor_graph'] = n_sites
 
 
 UNSIGNED_CTORS = ('Elf_byte', 'Elf_half', 'Elf_word', 'Elf_word64', 'Elf_xword', 'Elf_addr', 'Elf_offset')
